@@ -104,13 +104,14 @@ Qed.
 Ltac by_cases_on_memberships :=
   repeat match goal with |- context [existsb ?f ?l] => destruct (existsb f l) end; reflexivity.
 
-Lemma tie_include : forall w a vt, t_include w a vt = include_ (map ti w) a vt.
+(** [a] carries an arbitrary alias: reading [attribute.alias] instead of [attribute.name] breaks these. *)
+Lemma tie_include : forall w a vt, t_include w a vt = include_ (map ti w) (ta a) vt.
 Proof.
   intros w a vt. unfold t_include, include_, split_what. rewrite tie_split_what. cbn beta iota.
   rewrite ?mem_types, ?mem_names, ?mem_attrs. by_cases_on_memberships.
 Qed.
 
-Lemma tie_exclude : forall w a vt, t_exclude w a vt = exclude_ (map ti w) a vt.
+Lemma tie_exclude : forall w a vt, t_exclude w a vt = exclude_ (map ti w) (ta a) vt.
 Proof.
   intros w a vt. unfold t_exclude, exclude_, split_what. rewrite tie_split_what. cbn beta iota.
   rewrite ?mem_types, ?mem_names, ?mem_attrs. by_cases_on_memberships.
@@ -149,6 +150,7 @@ Proof. intros call cs a n. args4 a; reflexivity. Qed.
 
 (** Which closure [optional] / [pipe] build, and that the model's [call_obj] is these closures. *)
 Lemma tie_optional_dispatch :
+  t_optional_wrap_flags = Some (true, true) /\   (* Converter(optional_converter, takes_self=True, takes_field=True) *)
   t_optional_arity_if_converter = 3 /\ t_optional_arity_if_plain = 1 /\
   forall app c args n,
     call_obj app (COpt c) args n
@@ -156,13 +158,14 @@ Lemma tie_optional_dispatch :
       then converter_obj_call true true (t_optional_converter3 (call_obj app) c) args n
       else t_optional_converter1 (call_obj app) c args n.
 Proof.
-  split; [reflexivity|]. split; [reflexivity|]. intros app c args n. cbn [call_obj].
+  split; [reflexivity|]. split; [reflexivity|]. split; [reflexivity|]. intros app c args n. cbn [call_obj].
   destruct (is_converter c).
   - args4 args; try reflexivity; cbn; symmetry; apply tie_optional3.
   - symmetry. apply tie_optional1.
 Qed.
 
 Lemma tie_pipe_dispatch :
+  t_pipe_wrap_flags = Some (true, true) /\       (* Converter(pipe_converter, takes_self=True, takes_field=True) *)
   t_pipe_arity_if_instance = 3 /\ t_pipe_arity_if_plain = 1 /\
   forall app cs args n,
     call_obj app (CPipe cs) args n
@@ -170,7 +173,7 @@ Lemma tie_pipe_dispatch :
       then converter_obj_call true true (t_pipe_converter3 (call_obj app) cs) args n
       else t_pipe_converter1 (call_obj app) cs args n.
 Proof.
-  split; [reflexivity|]. split; [reflexivity|]. intros app cs args n. cbn [call_obj].
+  split; [reflexivity|]. split; [reflexivity|]. split; [reflexivity|]. intros app cs args n. cbn [call_obj].
   unfold t_pipe_return_instance. destruct (existsb is_converter cs).
   - args4 args; try reflexivity; cbn; symmetry; apply tie_pipe3.
   - symmetry. apply tie_pipe1.
